@@ -537,6 +537,20 @@ class cleanup:
         yield "counts-the-cleanup", s.cleanups == old.cleanups + 1
 
 
+def maps_unchanged(s, old):
+    """The three maps are the same (as functions) in the two states: True when no mutation happened at all (syntactic
+    check), otherwise the pointwise equalities — the form a caller of the contract gets."""
+    if same_model(s._widgets, old._widgets) and same_model(s._deps, old._deps) and same_model(s._refs, old._refs):
+        return True
+    wm2, wm, dm2, dm, rm2, rm = s._widgets, old._widgets, s._deps, old._deps, s._refs, old._refs
+    w, c, z, f = _qvars("mu")
+    r, x, y, j = z3.Const("qmu_r", R), z3.Const("qmu_x", W), z3.Const("qmu_y", W), z3.Int("qmu_j")
+    fw = z3.ForAll([w, c, z, f], z3.And(wm2.hasw(w) == wm.hasw(w), wm2.has2(w, c, z, f) == wm.has2(w, c, z, f), wm2.val2(w, c, z, f) == wm.val2(w, c, z, f), wm2.cnt(w) == wm.cnt(w)))
+    fr = z3.ForAll([r], z3.And(rm2.has(r) == rm.has(r), *[p == q for p, q in zip(rm2.val(r), rm.val(r))]))
+    fd = z3.ForAll([x, y, j], z3.And(dm2.has(x) == dm.has(x), dm2.dlen(x) == dm.dlen(x), dm2.delt(x, j) == dm.delt(x, j), dm2.dmem(x, y) == dm.dmem(x, y), dm2.didx(x, y) == dm.didx(x, y)))
+    return mk_bool(z3.And(fw, fr, fd, dm2.size == dm.size))
+
+
 # ============================================================================================= store
 def effective_depends(st, canvas):
     """What store takes as the dependency list of `canvas`: the explicit `depends_on` if the attribute exists, else
@@ -600,48 +614,60 @@ class store:
         1: Loop(invariant=_store_loop1, modifies=("cls._deps",), shapes={"cls._deps": CACHE.fields["_deps"]}),
     }
 
-    def requires(s, a):
-        # call site (the render wrappers): the canvas was finalized just now, so its weak reference is not in the cache yet
-        w, c, z, f = _qvars("fr")
-        r = ref_of(a.canvas.e)
-        return both(rep_inv(s), mk_bool(z3.ForAll([w, c, z, f], z3.Implies(s._widgets.cached(w, c, z, f), s._widgets.val2(w, c, z, f) != r))))
-
     def on_raise(a_old, s, a, exc):
         st = cur()
-        yield "only-for-a-canvas-without-widget-info", both(a.canvas and True, is_none(widget_info_of(st, a.canvas)))
-        yield "nothing-written", same_model(s._widgets, a_old._widgets) and same_model(s._deps, a_old._deps) and same_model(s._refs, a_old._refs)
+        yield "only-for-a-canvas-without-widget-info", is_none(cur_widget_info(st, a.canvas))
+        yield "nothing-written", maps_unchanged(s, a_old)
 
     def ensures(old, s, a, result):
         st = cur()
-        cacheable = PROTOCOLS["CCanvas"].uf_value(st, ".cacheable", a.canvas, [], Bool, 0)
-        wi = widget_info_of(st, a.canvas)
+        cacheable = cur_cacheable(st, a.canvas)
+        wi = cur_widget_info(st, a.canvas)
         none_dep, n, at = effective_depends(st, a.canvas)
         wm, wm2, dm, dm2, rm, rm2 = old._widgets, s._widgets, old._deps, s._deps, old._refs, s._refs
         j = z3.Int("qs_j")
         all_cached = z3.Or(none_dep, z3.ForAll([j], z3.Implies(z3.And(0 <= j, j < n), wm.hasw(at(j)))))
         if is_none(wi):
             yield "without-widget-info-only-uncacheable-returns", neg(cacheable)
-            yield "nothing-written", same_model(wm2, wm) and same_model(dm2, dm) and same_model(rm2, rm)
+            yield "nothing-written", maps_unchanged(s, old)
             return
         widget, size, focus = val(wi)
         key = [widget.e, a.wcls.e, size.e, zb(focus)]
         r = ref_of(a.canvas.e)
         stored = both(cacheable, mk_bool(all_cached))
-        unchanged = same_model(wm2, wm) and same_model(dm2, dm) and same_model(rm2, rm)
         # --- the either/or of the statement
-        yield "stored-iff-cacheable-and-every-dependency-cached", eq(mk_bool(wm2.cached(*key)) if not unchanged else mk_bool(wm.cached(*key)), either(stored, mk_bool(wm.cached(*key))))
-        yield "not-stored-writes-nothing", implies(neg(stored), unchanged)
-        if unchanged:
-            yield "unchanged-only-when-not-stored", neg(stored)
-            return
-        yield "entry-holds-this-canvas", both(mk_bool(wm2.cached(*key)), mk_bool(wm2.val2(*key) == r), mk_bool(deref(r) == a.canvas.e))
+        yield "entry-afterwards-iff-stored-or-already-there", eq(mk_bool(wm2.cached(*key)), either(stored, mk_bool(wm.cached(*key))))
+        yield "not-stored-writes-nothing", implies(neg(stored), maps_unchanged(s, old))
+        yield "entry-holds-this-canvas", implies(stored, both(mk_bool(wm2.cached(*key)), mk_bool(wm2.val2(*key) == r), mk_bool(deref(r) == a.canvas.e)))
         yield "other-entries-untouched", _other_entries_same(wm2, wm, key)
-        yield "reverse-map-names-the-entry", both(mk_bool(rm2.has(r)), mk_bool(z3.And(*[p == q for p, q in zip(rm2.val(r), key)])))
+        yield "reverse-map-names-the-entry", implies(stored, both(mk_bool(rm2.has(r)), mk_bool(z3.And(*[p == q for p, q in zip(rm2.val(r), key)]))))
         q = z3.Const("qs_r", R)
         yield "other-refs-untouched", mk_bool(z3.ForAll([q], z3.Implies(q != r, z3.And(rm2.has(q) == rm.has(q), *[p == o for p, o in zip(rm2.val(q), rm.val(q))]))))
-        yield "registered-under-every-dependency", mk_bool(z3.Or(none_dep, z3.ForAll([j], z3.Implies(z3.And(0 <= j, j < n), dm2.edge(at(j), widget.e)))))
+        yield "registered-under-every-dependency", implies(stored, mk_bool(z3.Or(none_dep, z3.ForAll([j], z3.Implies(z3.And(0 <= j, j < n), dm2.edge(at(j), widget.e))))))
         yield "edges-only-added-towards-widget", _edges_grow_only_towards(dm2, dm, widget.e)
-        yield "representation-invariant-kept", rep_inv(s)
+        # call-site fact (the render wrappers): the canvas was finalized just now, so its weak reference is not in the cache yet
+        w_, c_, z_, f_ = _qvars("fr")
+        fresh = mk_bool(z3.ForAll([w_, c_, z_, f_], z3.Implies(wm.cached(w_, c_, z_, f_), wm.val2(w_, c_, z_, f_) != r)))
+        yield "representation-invariant-kept", implies(both(rep_inv(old), fresh), rep_inv(s))
+        yield "cached-canvases-stay-finalized", implies(all_cached_finalized(st, wm), all_cached_finalized(st, wm2))
+
+
+def cur_cacheable(st, canv):
+    return PROTOCOLS["CCanvas"].uf_value(st, ".cacheable", canv, [], Bool, st.ghost.get("ver", {}).get(str(canv.e), 0))
+
+
+def cur_widget_info(st, canv, post=False):
+    """widget_info of a canvas in its current state (finalize, modelled in the wrappers' canvas protocol, bumps the state)"""
+    ver = (st.ghost.get("ver_post") if post and st.ghost.get("ver_post") is not None else st.ghost.get("ver", {})).get(str(canv.e), 0)
+    return PROTOCOLS["CCanvas"].uf_value(st, ".widget_info", canv, [], Opt(Tup(WIDGET, SIZE, Bool)), ver)
+
+
+def all_cached_finalized(st, wm):
+    """every canvas in the cache carries widget_info (store refuses any other)"""
+    w, c, z, f = _qvars("af")
+    canv = SOpaque("CCanvas", deref(wm.val2(w, c, z, f)))
+    wi = PROTOCOLS["CCanvas"].uf_value(st, ".widget_info", canv, [], Opt(Tup(WIDGET, SIZE, Bool)), 0)
+    return mk_bool(z3.ForAll([w, c, z, f], z3.Implies(wm.cached(w, c, z, f), z3.Not(wi.isnone))))
 
 
 def _other_entries_same(new, old, key):
@@ -771,3 +797,206 @@ class closure_lemma:
         st.assume(mk_bool(z3.ForAll([j], z3.Implies(j >= 0, dm.edge(path(j), path(j + 1))))))
         yield "base", mk_bool(_dead(wm2, dm2, path(0)))
         yield "step", implies(mk_bool(_dead(wm2, dm2, path(k))), mk_bool(_dead(wm2, dm2, path(k + 1))))
+
+
+# ============================================================================================= the render wrappers
+# urwid/widget/widget.py: cache_widget_render.<cached_render>, nocache_widget_render.<finalize_render>,
+# cache_widget_rows.<cached_rows> — the functions WidgetMeta installs as cls.render / cls.rows. Their free variables
+# (`cls`, `fn`, `ignore_focus` of the enclosing function; the module globals CanvasCache, CompositeCanvas,
+# validate_size) are given as ghost globals: CanvasCache is the class model above (its methods are calls under the
+# contracts above), `fn` (the class's own render / rows) is an opaque callable returning a fresh canvas / an int,
+# validate_size and CompositeCanvas are opaque callables with the canvas-protocol facts stated in their classes.
+from urwid.canvas import CanvasError  # noqa: E402
+from urwid.widget.widget import WidgetError  # noqa: E402
+
+WW = "urwid/widget/widget.py:"
+
+
+class FnRaised(Exception):
+    """whatever the class's own render / rows raises (opaque)"""
+
+
+size_ok = z3.Function("validate_size.accepts", W, Z, C, B)
+wrap = z3.Function("CompositeCanvas.of", C, C)
+CP = PROTOCOLS["CCanvas"]
+
+
+def _canvas_call(self, ip, st, recv, name, args, kwargs):
+    """Canvas.finalize(widget, size, focus) on an opaque canvas: the contract of the real Canvas.finalize (static
+    obligation Canvas.finalize of contracts/C06_cache.py (c) + its two-line body): raises CanvasError when widget_info is
+    already set, otherwise sets it to (widget, size, focus) and changes nothing else."""
+    if name != "finalize":
+        return Protocol.call(self, ip, st, recv, name, args, kwargs)
+    widget, size, focus = args
+    wi = cur_widget_info(st, recv)
+    st.trace.append(("finalize", recv, widget, size, focus))
+    if st.branch(z3.Not(wi.isnone)):
+        raise PyRaise(SExc(CanvasError, ("finalized",), site="Canvas.finalize"))
+    v0 = self.version(st, recv)
+    cacheable0 = self.uf_value(st, ".cacheable", recv, [], Bool, v0)
+    self.bump(st, recv)
+    wi2 = cur_widget_info(st, recv)
+    st.assume(neg(mk_bool(wi2.isnone)))
+    w2, z2, f2 = wi2.val
+    st.assume(both(mk_bool(w2.e == widget.e), mk_bool(z2.e == size.e), eq(f2, focus)))
+    st.assume(eq(self.uf_value(st, ".cacheable", recv, [], Bool, self.version(st, recv)), cacheable0))
+    return None
+
+
+_CanvasProto.call = _canvas_call
+_CanvasProto.methods = dict(_CanvasProto.methods, finalize=PMethod(result=None, params=["widget", "size", "focus"], mutates=True))
+
+
+class _RenderFn:
+    """The class's own render(self, size, focus=...): opaque; returns some canvas (possibly an already finalized one,
+    e.g. a child's), and may raise anything."""
+    kind = "RenderFn"
+
+    def call(self, ip, st, f, args, kwargs):
+        st.trace.append(("fn", args[0], args[1], kwargs.get("focus", args[2] if len(args) > 2 else None)))
+        if st.fork(2) == 1:
+            raise PyRaise(SExc(FnRaised, ("<render raised>",), site="opaque fn"))
+        return CANV.fresh(st, "rendered")
+
+
+class _RowsFn:
+    kind = "RowsFn"
+
+    def call(self, ip, st, f, args, kwargs):
+        st.trace.append(("fn", args[0], args[1], args[2] if len(args) > 2 else kwargs.get("focus")))
+        if st.fork(2) == 1:
+            raise PyRaise(SExc(FnRaised, ("<rows raised>",), site="opaque fn"))
+        r = st.fresh_int("rows")
+        st.ghost["fn_rows"] = r
+        return r
+
+
+class _ValidateFn:
+    """validate_size(widget, size, canv): raises WidgetError unless the canvas has the size asked (`accepts`)."""
+    kind = "ValidateFn"
+
+    def call(self, ip, st, f, args, kwargs):
+        widget, size, canv = args
+        st.trace.append(("validate_size", widget, size, canv))
+        if not st.branch(size_ok(widget.e, size.e, canv.e)):
+            raise PyRaise(SExc(WidgetError, ("size",), site="validate_size"))
+        return None
+
+
+class _WrapCtor:
+    """CompositeCanvas(canv): a NEW, not yet finalized canvas with the same cols/rows (canvas protocol, proved/bounded in
+    C02), hence accepted by validate_size exactly when canv is."""
+    kind = "WrapCtor"
+
+    def call(self, ip, st, f, args, kwargs):
+        (canv,) = args
+        r = SOpaque("CCanvas", wrap(canv.e))
+        st.assume(mk_bool(wrap(canv.e) != canv.e))
+        st.assume(mk_bool(cur_widget_info(st, r).isnone))
+        w, z = z3.Const("qw_w", W), z3.Const("qw_z", Z)
+        st.assume(mk_bool(z3.ForAll([w, z], size_ok(w, z, wrap(canv.e)) == size_ok(w, z, canv.e))))
+        st.trace.append(("wrap", canv))
+        return r
+
+
+for _p in (_RenderFn, _RowsFn, _ValidateFn, _WrapCtor):
+    PROTOCOLS[_p.kind] = _p()
+
+_CanvasProto.methods = dict(_CanvasProto.methods, rows=PMethod(result=Int, params=[]))
+
+WRAPPER_GLOBALS = dict(ignore_focus=Bool, cls=WCLS, CanvasCache=CACHE, CompositeCanvas=Opaque("WrapCtor"), validate_size=Opaque("ValidateFn"))
+
+
+def _wrapper_requires(a):
+    st = cur()
+    return all_cached_finalized(st, a.g_CanvasCache._widgets)
+
+
+def _trace(name):
+    return [ev for ev in cur().trace if ev[0] == name]
+
+
+@contract(WW + "cache_widget_render.<cached_render>", property="C06", replayable=False)
+class cached_render:
+    """The render WidgetMeta installs: a cache hit returns the stored canvas without rendering; a miss renders once,
+    validates the size, wraps an already finalized result, finalizes for exactly (self, size, focus), offers the canvas
+    to the cache (CanvasCache.store's contract) and returns it — only a finalized canvas that passed validate_size."""
+    params = dict(self=WIDGET, size=SIZE, focus=Bool)
+    globals_ = dict(WRAPPER_GLOBALS, fn=Opaque("RenderFn"))
+    raises = (FnRaised, WidgetError)  # only what the own render raises, or the size check; never CanvasError / TypeError
+    call_real = staticmethod(_real)
+    cover_witness = staticmethod(empty_entries_witness)
+    requires = staticmethod(_wrapper_requires)
+
+    def ensures(a, result):
+        st = cur()
+        if isinstance(result, V.SOpt):
+            result = st.force(result)  # the walrus-bound fetch result, known not to be None on this path
+        cache0, cache = a.old.g_CanvasCache, a.g_CanvasCache
+        eff_focus = both(a.focus, neg(a.g_ignore_focus))
+        key = [a.self.e, a.g_cls.e, a.size.e, zb(eff_focus)]
+        hit = mk_bool(cache0._widgets.cached(*key))
+        wi = cur_widget_info(st, result, post=True)
+        rendered, validated, finalized = _trace("fn"), _trace("validate_size"), _trace("finalize")
+        yield "returns-a-finalized-canvas", neg(mk_bool(wi.isnone))
+        if not rendered:
+            yield "no-render-only-on-a-hit", hit
+            yield "hit-returns-the-stored-canvas", mk_bool(result.e == deref(cache0._widgets.val2(*key)))
+            yield "hit-leaves-the-cache-alone", same_model(cache._widgets, cache0._widgets) and same_model(cache._deps, cache0._deps) and same_model(cache._refs, cache0._refs)
+            return
+        yield "render-only-on-a-miss", neg(hit)
+        yield "rendered-once-with-the-effective-focus", len(rendered) == 1 and both(mk_bool(rendered[0][1].e == a.self.e), mk_bool(rendered[0][2].e == a.size.e), eq(rendered[0][3], eff_focus))
+        yield "validated-once", len(validated) == 1
+        yield "passed-validate-size", mk_bool(size_ok(a.self.e, a.size.e, result.e))
+        yield "finalized-once-for-this-call", len(finalized) == 1 and mk_bool(finalized[0][1].e == result.e)
+        w2, z2, f2 = wi.val
+        yield "widget-info-is-this-call", both(mk_bool(w2.e == a.self.e), mk_bool(z2.e == a.size.e), eq(f2, eff_focus))
+        yield "an-entry-for-this-key-holds-this-canvas", implies(mk_bool(cache._widgets.cached(*key)), mk_bool(cache._widgets.val2(*key) == ref_of(result.e)))
+
+
+@contract(WW + "nocache_widget_render.<finalize_render>", property="C06", replayable=False)
+class finalize_render:
+    """The render installed for `no_cache` classes: renders, wraps an already finalized result, validates, finalizes;
+    never touches the cache."""
+    params = dict(self=WIDGET, size=SIZE, focus=Bool)
+    globals_ = dict(WRAPPER_GLOBALS, fn=Opaque("RenderFn"))
+    raises = (FnRaised, WidgetError)
+
+    def ensures(a, result):
+        st = cur()
+        cache0, cache = a.old.g_CanvasCache, a.g_CanvasCache
+        wi = cur_widget_info(st, result, post=True)
+        rendered, validated, finalized = _trace("fn"), _trace("validate_size"), _trace("finalize")
+        yield "returns-a-finalized-canvas", neg(mk_bool(wi.isnone))
+        yield "rendered-once", len(rendered) == 1 and both(mk_bool(rendered[0][1].e == a.self.e), mk_bool(rendered[0][2].e == a.size.e), eq(rendered[0][3], a.focus))
+        yield "passed-validate-size", len(validated) == 1 and mk_bool(size_ok(a.self.e, a.size.e, result.e))
+        yield "finalized-once-for-this-call", len(finalized) == 1 and mk_bool(finalized[0][1].e == result.e)
+        w2, z2, f2 = wi.val
+        yield "widget-info-is-this-call", both(mk_bool(w2.e == a.self.e), mk_bool(z2.e == a.size.e), eq(f2, a.focus))
+        yield "cache-untouched", same_model(cache._widgets, cache0._widgets) and same_model(cache._deps, cache0._deps) and same_model(cache._refs, cache0._refs)
+
+
+@contract(WW + "cache_widget_rows.<cached_rows>", property="C06", replayable=False)
+class cached_rows:
+    """The rows WidgetMeta installs: answered from the cached canvas (its rows()) on a hit, computed by the class's own
+    rows on a miss; the cache content is never changed."""
+    params = dict(self=WIDGET, size=SIZE, focus=Bool)
+    globals_ = dict(WRAPPER_GLOBALS, fn=Opaque("RowsFn"))
+    raises = (FnRaised,)
+    result = Int
+
+    def ensures(a, result):
+        st = cur()
+        cache0, cache = a.old.g_CanvasCache, a.g_CanvasCache
+        eff_focus = both(a.focus, neg(a.g_ignore_focus))
+        key = [a.self.e, a.g_cls.e, a.size.e, zb(eff_focus)]
+        hit = mk_bool(cache0._widgets.cached(*key))
+        computed = _trace("fn")
+        yield "cache-content-untouched", same_model(cache._widgets, cache0._widgets) and same_model(cache._deps, cache0._deps) and same_model(cache._refs, cache0._refs)
+        if not computed:
+            yield "no-computation-only-on-a-hit", hit
+            stored = SOpaque("CCanvas", deref(cache0._widgets.val2(*key)))
+            yield "hit-answers-the-cached-canvas-rows", result == CP.uf_value(st, "rows", stored, [], Int, 0)
+            return
+        yield "computation-only-on-a-miss", neg(hit)
+        yield "miss-answers-the-own-rows-with-the-effective-focus", both(result == st.ghost["fn_rows"], len(computed) == 1, mk_bool(computed[0][1].e == a.self.e), mk_bool(computed[0][2].e == a.size.e), eq(computed[0][3], eff_focus))
